@@ -1506,6 +1506,31 @@ theorem alterRetentionPolicy_zero_limit_counterexample :
      | .error _ => true) = true := by
   refine ⟨?_, ?_, ?_⟩ <;> decide +kernel
 
+/-! ### the single-name statements once more, in full
+
+With the pieces of `Lemmas/StmtPieces.lean` the two partial theorems above merge into one that
+also covers a bare name at the very end of the input (the scanner swallows the NUL sentinel there;
+`PState.Before` accounts for it). -/
+
+/-- **Print → parse, DROP DATABASE / DROP MEASUREMENT / DROP USER / SHOW GRANTS FOR.** -/
+theorem singleName_print_parse (fuel : Nat) (h : Handler) (C : Str → Statement) (hh : (h, C) ∈ singleNameHandlers)
+    (s : PState) (name k : Str) (hex : Expressible name) (hk : IdentEnd name k)
+    (hs : s.Before (' ' :: qi name ++ k)) :
+    ∃ s', (runHandler fuel h).run s = .ok (C name, s') ∧ s'.Before k := by
+  obtain ⟨s', hrun, hb⟩ := parseIdent_piece s [' '] (qi name) k name Gap.blank hs.around (scansAs_ident name k hex hk)
+  refine ⟨s', ?_, hb⟩
+  simp only [singleNameHandlers, List.mem_cons, Prod.mk.injEq, List.not_mem_nil, or_false] at hh
+  rcases hh with ⟨rfl, rfl⟩ | ⟨rfl, rfl⟩ | ⟨rfl, rfl⟩ | ⟨rfl, rfl⟩ <;>
+    (simp only [runHandler]; rw [P.run_bind _ _ s name s' hrun]; rfl)
+
+/-- Non-vacuity: `DROP MEASUREMENT cpu` at the very end of the input (excluded before). -/
+example : ∃ s', (runHandler 10 .parseDropMeasurementStatement).run (PState.init " cpu".toList [] []) =
+    .ok (.dropMeasurement "cpu".toList, s') := by
+  obtain ⟨s', h, _⟩ := singleName_print_parse 10 .parseDropMeasurementStatement .dropMeasurement
+    (by simp [singleNameHandlers]) (PState.init " cpu".toList [] []) "cpu".toList [eofRune] (by decide)
+    (.of_wordEnd .eof) (init_before " cpu".toList (by decide +kernel))
+  exact ⟨s', h⟩
+
 /-! ## the dispatch keywords at text level
 
 `ParseStatement` walks the tree of parse_tree.go along the statement's keywords. On the printed
